@@ -16,3 +16,16 @@ impl Clone for Diff { #[verifier::external_body] fn clone(&self) -> (r: Self) en
 //@type base/src/user_model/common.rs UserModel
 // the two fields of the deleted worksheet that the DeleteSheet undo arm reads first (D5)
 pub struct WorksheetShell { pub name: String, pub sheet_id: u32 }
+/// position of the sheet that was at index x after the sheet at `from` is removed and re-inserted at `to`
+pub open spec fn moved_index(x: int, from: int, to: int) -> int {
+    if x == from { to } else {
+        let a = if x > from { x - 1 } else { x };
+        if a >= to { a + 1 } else { a }
+    }
+}
+//@fn base/src/user_model/common.rs selected_sheet_after_move
+//@spec
+    requires selected < 4294967295
+    ensures r == moved_index(selected as int, from as int, to as int)
+//@rewrite `-> u32 {` => `-> (r: u32) {`
+//@end
